@@ -34,6 +34,15 @@ InvSquare128P == LET m == Square128P(a, p1, p2, p4) IN IsWord(m.h) /\ IsWord(m.l
 InvMult128P_512 == LET m == Mult128_512P(a, b, p1, p2, p3, p4) IN IsWord(m.h) /\ IsWord(m.l) /\ m.h * T + m.l = p1 * T + (p2 + p3) * Phi + p4
 InvMult72P_512 == (p2 <= (Phi - 1) * 255 /\ p4 <= (Phi - 1) * 255) => LET m == Mult72_512P(a, b, p2, p4) IN m.h < Phi /\ IsWord(m.l) /\ m.h * T + m.l = p2 * Phi + p4
 InvSquare128P_512 == LET m == Square128_512P(a, p1, p2, p4) IN IsWord(m.h) /\ IsWord(m.l) /\ m.h * T + m.l = p1 * T + 2 * p2 * Phi + p4
+(* products with one factor fixed are linear: real-operand obligations (their counterexamples are operand pairs) *)
+InvMult8_3 == Rep(Mult8(a, 3), a * 3)
+InvMult8_255 == Rep(Mult8(a, 255), a * 255)
+InvMult_3 == Rep(Mult(a, 3), a * 3)
+InvMult_F == Rep(Mult(a, Phi + 1), a * (Phi + 1))
+InvMult8_512_3 == Rep(Mult8_512(a, 3), a * 3)
+InvMult8_512_255 == Rep(Mult8_512(a, 255), a * 255)
+InvMult512_3 == Rep(Mult512(a, 3), a * 3)
+InvMult512_F == Rep(Mult512(a, Phi + 1), a * (Phi + 1))
 InvReduce128 == Rep(Reduce128(a, b), a * T + b)
 InvReduce96 == a < Phi => Rep(Reduce96(a, b), a * T + b)
 InvToCanon512 == ToCanon512(a) = a % P
